@@ -35,7 +35,10 @@ VALS = {"text": ("old text value", "NEW text value, longer"), "bytes": (b"\x00ol
         "dictionary": ({"old": 1}, {"new": [1, 2, 3]}), "pickle": ([1, "old"], [2, "new", 3.5])}
 OTHER_TYPE = {"text": {"k": "other type"}, "bytes": "text instead", "dictionary": "text instead", "pickle": "text instead"}
 BACKENDS = ["filecache", "xor", "fernet", "filestore", "sc-flat", "sc-nested"]
-SCENARIOS = ["store-fresh", "store-over", "store-over-type", "storem", "remove"]
+SCENARIOS = ["store-fresh", "store-over", "store-over-type", "storem", "remove", "store-after-crashed-remove"]
+# "store-after-crashed-remove": the old entry (of another type) was being removed when the process died after the first file operation of
+# remove(); then a store of the new value is crashed at every point. Two crashes in a row; oracle only (the model starts from complete entries).
+ORACLE_ONLY = {"store-after-crashed-remove"}
 XOR_CODE = bytes([0x5A, 0x13, 0xC7, 0x2E, 0x91, 0x7F, 0x08])
 FERNET_KEY = b"Zm9yLXZlcmlmaWNhdGlvbi1vbmx5LTMyLWJ5dGVzISE="
 
@@ -365,7 +368,7 @@ def scenario(args):
     l = L()
     key, other = (SKEY, SOTHER) if backend == "filestore" else (KEY, OTHER)
     old_v, new_v = VALS[vt]
-    if scen == "store-over-type":
+    if scen in ("store-over-type", "store-after-crashed-remove"):
         old_v = OTHER_TYPE[vt]
     base = common.scratch_dir("liquer-verif-c16-")
     res = dict(backend=backend, scen=scen, vt=vt, points=[], violations=[], note=None)
@@ -376,7 +379,9 @@ def scenario(args):
         do_store(backend, obj, other, "neighbour value", "RESTother")
         if scen != "store-fresh":
             do_store(backend, obj, key, old_v, "RESTold")
-        if scen in ("store-fresh", "store-over", "store-over-type"):
+        if scen == "store-after-crashed-remove":
+            run_child(backend, root0, lambda o: o.remove(key), 1, None)
+        if scen in ("store-fresh", "store-over", "store-over-type", "store-after-crashed-remove"):
             action = lambda o: do_store(backend, o, key, new_v, "RESTnew")
         elif scen == "storem":
             action = lambda o: do_storem(backend, o, key, l["tid"](old_v), "RESTnewmeta")
@@ -447,7 +452,7 @@ def scenario(args):
                                               what="%s %s (%s): crash %s changes what the other key %r reads" % (backend, scen, vt, where, other), point=[i, "buffered"]))
             res["buffered_points"] = res.get("buffered_points", 0) + 1
         # model request ingredients
-        res["model"] = model_request(backend, scen, key, other, old_v, new_v, files0, files1, root0, ref, l)
+        res["model"] = None if scen in ORACLE_ONLY else model_request(backend, scen, key, other, old_v, new_v, files0, files1, root0, ref, l)
         return res
     finally:
         shutil.rmtree(base, ignore_errors=True)
@@ -569,6 +574,8 @@ def run(ctx):
         nsteps = len(r["trace"])
         for p in r["points"]:
             ctx.case(tag + ":%d:%s" % (p["i"], p["cut"]) if 0 < p["i"] < nsteps or p["cut"] is not None else None)
+            if r["model"] is None:
+                continue
             n = p["i"]
             cutn = p["cutn"] if p["cut"] is not None else 0
             # a crash point without partial write: `cut` = 0 would still apply 0 bytes of an append — harmless (nothing is appended)
